@@ -168,15 +168,18 @@ def check(ctx):
     R.instance("LOOP-A", "%d error exits of the loop (short data / invalid UTF-8 / decode error)" % n_err)
     if not exh_targets:
         R.violation("LOOP-A", FN + "|exhaustion-edge", "cannot identify the exhaustion edge of the argument loop", function=FN, kind="UNRECOGNISED-SHAPE")
-    if n_err < 8:
-        R.violation("LOOP-A", FN + "|error-exits", "only %d error exits leave the loop (floor 8: one short-data guard per kind)" % n_err, function=FN, kind="ANCHOR-MISSING")
-    # UTF8 + ARG via the engine's aggregate hook
+    if n_err < 1:
+        # anti-vacuity only: the per-kind guards may sit in a helper the loop calls (their `?` is then one exit here)
+        R.violation("LOOP-A", FN + "|error-exits", "no error exit leaves the argument loop (a short payload must be refused)", function=FN, kind="ANCHOR-MISSING")
+    # UTF8 + ARG via the engine's aggregate hook (constructions anywhere in the functions the loop reaches count: the
+    # per-kind decoding may sit in a private helper)
+    reach_fn = {p_ for p_ in ctx.cg.local_reachable([FN]) if F.body(p_) is not None and not F.body(p_)["derived"]}
     eng = Engine(F, budget=3000000)
     strs = []
     args = []
 
     def on_agg(eng_, st, fr, rv, ops):
-        if not (fr.path.startswith(FN) or fr.path.startswith(WK)):
+        if not (fr.path.startswith(FN) or fr.path.startswith(WK) or fr.path in reach_fn):
             return
         if rv["adt"] == "dlt::Value":
             a = F.adts["dlt::Value"]["variants"][rv["variant"]]["name"]
@@ -187,7 +190,7 @@ def check(ctx):
 
     def on_call(eng_, st, fr, f, args, site):
         p = f["path"]
-        if fr.path in (FN, WK) and f.get("name") == "clone" and f.get("self_ty") is not None and eng_.T.t(f["self_ty"]).get("path") == "dlt::TypeInfo":
+        if (fr.path in (FN, WK) or fr.path in reach_fn) and f.get("name") == "clone" and f.get("self_ty") is not None and eng_.T.t(f["self_ty"]).get("path") == "dlt::TypeInfo":
             from engine.contracts import ret_ty
             from rules.C09 import name_of
             return [(st, Top(ret_ty(eng_, site), "clone(%s)" % name_of(eng_, st, args[0])))]
